@@ -240,6 +240,10 @@ impl ToPrimitive for BigDecimalRef<'_> {
                     s.parse().map(copy_sign_to_float).ok()
                 }
             }
+            None if scale > 0 => {
+                // exponent too small for i32: the value underflows to zero
+                copy_sign_to_float(0.0).into()
+            }
             None => {
                 // exponenent too big for i32: return appropriate infinity
                 let result = if self.sign != Sign::Minus {
